@@ -35,7 +35,9 @@ var tmpBase = func() string {
 var seq int
 
 func init() {
-	log.ReplaceGlobals(zap.NewNop(), &log.ZapProperties{})
+	if os.Getenv("VERIF_PDLOG") == "" { // VERIF_PDLOG=1 keeps pd's own log output (debugging)
+		log.ReplaceGlobals(zap.NewNop(), &log.ZapProperties{})
+	}
 	server.EnableZap = false
 }
 
